@@ -123,6 +123,9 @@ func init() {
 			m.preemptAt = int(int64(m.path.Concretise(a[0].(*Term), "preempt-at")))
 			m.preemptSeen = 0
 			m.preemptHit = false
+			if m.preemptAt >= 0 {
+				m.preemptEver = true
+			}
 			return nil
 		},
 		"vsymPreemptCovered": func(m *Machine, _ *frame, _ *ssa.Function, a []value) value {
